@@ -72,7 +72,9 @@ Qed.
    (= the number of lines of split_lines, C01_split_concat / linecount_len) and linelength returns `linelen` of it, the number
    of bytes of the first line of the model's split (C01_tr_linelen_is_the_split).  Memory unchanged, every load inside the
    block, no overflow: the one bound needed is that the text is shorter than 2 GB (both functions return int). *)
-From NV Require Import CLite CLiteProps GenCFuncs TrLbufLines.
+From NV Require CLite CLiteProps GenCFuncs TrLbufLines.
+Section C01_translated.
+Import CLite CLiteProps GenCFuncs TrLbufLines.
 
 Theorem C01_tr_linelen_is_the_split : forall t : bytes, t <> [] ->
   split_lines t = norm (firstn (linelen t) t) :: split_lines (skipn (linelen t) t) /\
@@ -117,3 +119,4 @@ Example C01_tr_nonvacuous :
 Proof.
   cbv zeta. split; [reflexivity|]. split; [repeat constructor|]. vm_compute. repeat split.
 Qed.
+End C01_translated.
